@@ -19,7 +19,8 @@ FUNCS = ["beyond.dates.date:Timescale.offset", "beyond.dates.date:Timescale._sca
          "beyond.dates.date:Date.__eq__", "beyond.dates.date:Date.__hash__", "beyond.dates.date:Date.__lt__",
          "beyond.dates.date:DateRange.__init__", "beyond.dates.date:DateRange.__iter__", "beyond.dates.date:DateRange.__len__",
          "beyond.dates.date:DateRange.__contains__", "beyond.dates.eop:EopDb.get"]
-STUBS = ["float/int -> SF/SI (float/int subclasses wrapping exact reals; // % divmod with Python floor semantics)",
+STUBS = ["range/*_fp: timedelta.total_seconds() additionally carries a relative rounding error |delta| <= 2^-52 (float seconds vs exact "
+         "timedelta arithmetic)", "float/int -> SF/SI (float/int subclasses wrapping exact reals; // % divmod with Python floor semantics)",
          "datetime/timedelta -> exact real seconds (microsecond rounding not modelled)", "EopDb.get -> one symbolic record "
          "(tai_utc, ut1_utc) for the dates of one obligation (same-day assumption)", "eq/hash consistency: the return expressions of "
          "Date._mjd / __eq__ / __hash__ are translated from the AST into IEEE-754 binary64 terms (QF_FP)"]
@@ -389,7 +390,7 @@ def hash_group():
 
 
 # --------------------------------------------------------------------------- (f) DateRange
-def range_case(sign, inclusive, K):
+def range_case(sign, inclusive, K, fp=False):
     ins = EOP_IN + [("d", "int"), ("s", "real"), ("span", "real"), ("step", "real")]
 
     def pre(v):
@@ -414,9 +415,17 @@ def range_case(sign, inclusive, K):
                 if k > K + 1:
                     raise AssertionError("unwinding bound exceeded")
             n = len(dates)
-            out = {"len": val(r.__len__()) if env.symbolic else len(r), "count": n}
+            if env.symbolic and fp:
+                # inside __len__ float seconds carry a rounding error (only timedelta.total_seconds(); timedelta arithmetic is exact)
+                CTX.round_total_seconds = True
+            try:
+                out = {"len": val(r.__len__()) if env.symbolic else len(r), "count": n}
+            finally:
+                CTX.round_total_seconds = False
+            CTX.round_total_seconds = False
             for k, dte in enumerate(dates):
-                out[f"date{k}"] = val((dte - start).total_seconds())
+                if not fp:
+                    out[f"date{k}"] = val((dte - start).total_seconds())
                 out[f"in{k}"] = Holds(dte in r) if not env.symbolic else Holds(r.__contains__(dte))
             return out
         finally:
@@ -436,11 +445,13 @@ def range_case(sign, inclusive, K):
                 cnt += 1
         r["count"] = cnt
         for k in range(n):
-            r[f"date{k}"] = k * v["step"]
+            if not fp:
+                r[f"date{k}"] = k * v["step"]
             r[f"in{k}"] = None
         return r
-    tag = ("fwd" if sign > 0 else "bwd") + ("_incl" if inclusive else "")
-    return Case(f"range/{tag}", ins, run, ref, pre=pre, timeout=120, maxpaths=400, tol=1e-9, abs_tol=3e-6,
+    tag = ("fwd" if sign > 0 else "bwd") + ("_incl" if inclusive else "") + ("_fp" if fp else "")
+    panel = [{"step": sign * st, "span": sign * st * k, "s": 0.0} for st in (0.1, 0.3, 1.7, 0.123457) for k in (1, 2, 3)] if fp else None
+    return Case(f"range/{tag}", ins, run, ref, pre=pre, timeout=120, maxpaths=400, tol=1e-9, abs_tol=3e-6, extra_points=panel,
                 desc=f"DateRange ({'positive' if sign > 0 else 'negative'} step, inclusive={inclusive}, up to {K} steps): iterated dates are "
                      "start + k*step, their number equals len(), each is `in` the range, none beyond stop")
 
@@ -526,6 +537,7 @@ def all_cases(tier):
     for sign in (1, -1):
         for inc in (False, True):
             cs.append(range_case(sign, inc, K))
+            cs.append(range_case(sign, inc, min(K, 3), fp=True))
     return cs
 
 
